@@ -258,6 +258,10 @@ PY_KEEP = {'sqeven': lambda x: x * x if x % 2 == 0 else None, 'posid': lambda x:
 PY_CAT = {'pairx': lambda x: [x, x + 1], 'rep3': lambda x: [x] * (x % 3), 'none': lambda x: []}
 PY_KEEP2 = {'ltsum': lambda x, y: x + y if x < y else None, 'add': lambda x, y: x + y, 'snd': lambda x, y: y}
 PY_CAT2 = {'tup': lambda x, y: [x, y], 'tupsum': lambda x, y: [x + y], 'tup3': lambda x, y: [y, x, y]}
+PY_VAR = {'map': {'vsum': lambda *xs: sum(xs), 'vlast': lambda *xs: xs[-1]},
+          'mapcat': {'vtup': lambda *xs: list(xs), 'vrev': lambda *xs: list(xs)[::-1]},
+          'keep': {'vsumpos': lambda *xs: sum(xs) if sum(xs) > 0 else None, 'vsum': lambda *xs: sum(xs)},
+          'count': {'vasc': lambda *xs: all(a < b for a, b in zip(xs, xs[1:])), 'vtrue': lambda *xs: True}}
 PY_SUBST = {'upper': lambda m: m.upper(), 'const': lambda m: b'Z', 'dup': lambda m: m + m}
 
 
@@ -670,6 +674,13 @@ def _oracle(f, args):
         else:
             r = l[n:] if n >= 0 else l[:max(0, len(l) + n)]
         return mk(r), same
+    if f in PY_VAR and len(args) >= 2 and args[0][0] == 'F' and args[0][1] in PY_VAR[f] and all(a[0] in ('(', '[') for a in args[1:]):
+        g = PY_VAR[f][args[0][1]]
+        vals = [g(*row) for row in zip(*[ints_of(a[1]) for a in args[1:]])]
+        if f == 'map': return A([I(v) for v in vals]), same
+        if f == 'keep': return A([I(v) for v in vals if v is not None]), same
+        if f == 'mapcat': return A([I(e) for v in vals for e in v]), same
+        return I(sum(1 for v in vals if v)), same
     if f in ('keep', 'mapcat', 'count') and len(args) in (2, 3) and all(a[0] in ('(', '[') for a in args[1:]) and not (f == 'count' and len(args) == 2):
         seqs = [ints_of(a[1]) for a in args[1:]]
         g = fn_of(args[0], {('keep', 2): PY_KEEP, ('keep', 3): PY_KEEP2, ('mapcat', 2): PY_CAT, ('mapcat', 3): PY_CAT2,
